@@ -51,6 +51,36 @@ class GotranCCodePrinter(C99CodePrinter):
     def _print_Float(self, flt):
         return self._print(str(float(flt)))
 
+    def _print_Integer(self, expr):
+        # Inside products, quotients and powers an integer literal must take
+        # part in real arithmetic: `1/4` is 0.25 and not the C integer quotient 0
+        if getattr(self, "_real_literals", False):
+            return f"{expr.p}.0"
+        return super()._print_Integer(expr)
+
+    def _print_with_real_literals(self, method, expr):
+        previous = getattr(self, "_real_literals", False)
+        self._real_literals = True
+        try:
+            return method(expr)
+        finally:
+            self._real_literals = previous
+
+    def _print_Mul(self, expr):
+        return self._print_with_real_literals(super()._print_Mul, expr)
+
+    def _print_Pow(self, expr):
+        return self._print_with_real_literals(super()._print_Pow, expr)
+
+    def _print_Indexed(self, expr):
+        # Array subscripts stay integers
+        previous = getattr(self, "_real_literals", False)
+        self._real_literals = False
+        try:
+            return super()._print_Indexed(expr)
+        finally:
+            self._real_literals = previous
+
     def _print_Piecewise(self, expr):
         if isinstance(expr.args[0][0], Assignment):
             result = []
